@@ -19,6 +19,9 @@ def main (args : List String) : IO UInt32 := do
   let names := env.header.moduleData[idx.toNat]!.constNames
   for n in names do
     if n.isInternal then continue
+    -- skip compiler-generated equation/unfolding lemmas of definitions in the statement files
+    let last := n.getString!
+    if last.startsWith "eq_" || last == "eq_def" || last.startsWith "match_" || last == "induct" || last == "induct_unfolding" || last == "fun_cases" || last == "fun_cases_unfolding" || last.startsWith "proof_" || last == "congr_simp" || last.endsWith "_unfold" then continue
     match env.find? n with
     | some (.thmInfo _) =>
       let (arr, _) := ((collectAxioms n : StateM Environment (Array Name))).run env
